@@ -9,4 +9,9 @@ python3 tools/extract_consts.py
 ( cd ocaml && ocamlfind ocamlopt -O3 -w -a -o driver model.mli model.ml driver.ml )
 ( cd harness && RUSTFLAGS="--cfg fpdec_verif" cargo build --offline 2>&1 | tail -2 )
 ( cd harness && RUSTFLAGS="--cfg fpdec_verif" cargo build --offline --release 2>&1 | tail -2 )
+# feature builds (own target directories): serde-as-str + num-traits + rkyv; rkyv + packed; packed
+( cd harness && RUSTFLAGS="--cfg fpdec_verif" cargo build --offline --features serde-as-str,num-traits,rkyv --target-dir target-feat 2>&1 | tail -1 )
+( cd harness && RUSTFLAGS="--cfg fpdec_verif" cargo build --offline --features rkyv,packed --target-dir target-featp 2>&1 | tail -1 )
+( cd harness && RUSTFLAGS="--cfg fpdec_verif" cargo build --offline --features packed --target-dir target-packed 2>&1 | tail -1 )
+( cd harness && RUSTFLAGS="--cfg fpdec_verif" cargo build --offline --release --features packed --target-dir target-packed 2>&1 | tail -1 )
 echo setup done
